@@ -240,6 +240,35 @@ def verify_logic(ctx):
     ctx.stub("certificate library: returns the candidate ticket or nothing (its own VCs: C09 K1); OER coder injective; signature check an uninterpreted predicate recorded with its arguments")
 
 
+@vc("C03", "S1-unsigned-envelope-is-never-accepted")
+def verify_unsigned(ctx):
+    """VerifyService.verify on a decodable envelope whose content is not SignedData (EtsiTs103097Data with unsecuredData): never SUCCESS"""
+    h = VerifyHarness()
+    I, K = h.I, h.K
+    m = h.msgs[0]
+    m.d = SDict([(TRUE, "protocolVersion", 3, False), (TRUE, "content", ("unsecuredData", m.payload), False)])
+    conf = h.verify()
+    exc = cond_or(c for c, _ in I.raises)
+    ok = FALSE if not isinstance(conf, (Obj, Guarded)) else report_is(I, conf, ReportVerify.SUCCESS)
+    vars_ = {"msg1_payload": m.payload.term}
+
+    def replay(vals):
+        from unittest import mock
+        payload = b"P" + int(vals.get("msg1_payload", 0)).to_bytes(6, "big")
+        vs = VerifyService(mock.Mock(), mock.Mock(), mock.Mock())
+        with mock.patch.object(VS.SECURITY_CODER, "decode_etsi_ts_103097_data_signed", lambda b: {"protocolVersion": 3, "content": ("unsecuredData", payload)}):
+            try:
+                conf_ = vs.verify(SNVERIFYRequest(sec_header_length=0, sec_header=b"", message_length=4, message=b"wire"))
+            except Exception as e:          # noqa
+                return False, f"unsigned envelope: verify raised {type(e).__name__} (nothing is delivered)"
+        return conf_.report == ReportVerify.SUCCESS, f"unsigned envelope with payload {payload.hex()} reported {conf_.report}"
+    ctx.witness("unsigned-reach-verify", I, z3.Or(exc, z3.Not(ok)), vars=vars_, validate=lambda v: not replay(v)[0])
+    ctx.prove("unsigned-envelope-never-reported-success", I, z3.And(ok, z3.Not(exc)), vars=vars_, replay=replay,
+              desc="an envelope that carries unsecuredData instead of SignedData (no signer, no signature) ends in an exception or a non-SUCCESS report: "
+                   "Router.process_security_header delivers only on SUCCESS")
+    ctx.bound("one decoded envelope {protocolVersion 3, content (unsecuredData, arbitrary payload)}; other CHOICE alternatives (encryptedData, signedCertificateRequest) not enumerated")
+
+
 @vc("C03", "S1-history-independence")
 def verify_twice(ctx):
     """two consecutive verifications on one VerifyService: the verdict on the second message depends on the second message only"""
